@@ -9,11 +9,11 @@ git checkout -q -- . ; git clean -fdq tests src 2>/dev/null
 run_demo() {
   if [ -f "$M/demo_test.rs" ]; then
     cp "$M/demo_test.rs" tests/zz_demo.rs
-    cargo test --offline --test zz_demo >/tmp/confirm.$$.log 2>&1; RC=$?
+    cargo test --offline --features verif-hooks --test zz_demo >/tmp/confirm.$$.log 2>&1; RC=$?
     rm -f tests/zz_demo.rs
   else
     git apply "$M/demo.diff" || { echo "demo.diff does not apply"; return 99; }
-    cargo test --offline --lib >/tmp/confirm.$$.log 2>&1; RC=$?
+    cargo test --offline --features verif-hooks --lib >/tmp/confirm.$$.log 2>&1; RC=$?
     git apply -R "$M/demo.diff"
   fi
   return $RC
